@@ -43,7 +43,7 @@ MAX_DEPTH = 7
 
 
 class Entry:
-    def __init__(self, eid: str, fn: Callable, group: str, args: Dict[str, Any], parse: bool, inplace: Optional[Callable], doc: str, ncanon: int):
+    def __init__(self, eid: str, fn: Callable, group: str, args: Dict[str, Any], parse: bool, inplace: Optional[Callable], doc: str, ncanon: int, canon=()):
         self.id = eid
         self.fn = fn
         self.group = group
@@ -52,16 +52,17 @@ class Entry:
         self.inplace = inplace  # a -> bool: the documented in-place repair applies to this call (buffer changes allowed)
         self.doc = doc
         self.ncanon = ncanon
+        self.canon = list(canon)  # directed canonical argument sets (always part of the canonical calls)
 
 
 CATALOGUE: Dict[str, Entry] = {}
 
 
-def entry(eid: str, group: str, args: Optional[Dict[str, Any]] = None, parse: bool = False, inplace: Optional[Callable] = None, doc: str = "", ncanon: int = 3):
+def entry(eid: str, group: str, args: Optional[Dict[str, Any]] = None, parse: bool = False, inplace: Optional[Callable] = None, doc: str = "", ncanon: int = 3, canon=()):
     def deco(fn):
         if eid in CATALOGUE:
             raise HarnessError(f"duplicate catalogue entry {eid}")
-        CATALOGUE[eid] = Entry(eid, fn, group, args or {}, parse, inplace, doc or (fn.__doc__ or "").strip(), ncanon)
+        CATALOGUE[eid] = Entry(eid, fn, group, args or {}, parse, inplace, doc or (fn.__doc__ or "").strip(), ncanon, canon)
         return fn
 
     return deco
@@ -271,6 +272,9 @@ def fork_run(calls: List[dict], timeout: float = 60.0) -> List[dict]:
         try:
             os.close(r)
             signal.signal(signal.SIGINT, signal.SIG_DFL)
+            if not os.environ.get("VP_CHILD_STDERR"):  # the library prints tracebacks of handled errors (try_parse_packet)
+                dn = os.open(os.devnull, os.O_WRONLY)
+                os.dup2(dn, 2)
             try:
                 payload = {"obs": run_calls_here(calls)}
             except HarnessError as he:
@@ -716,13 +720,19 @@ def args_strategy(e: Entry):
     return st.fixed_dictionaries({k: v.strat() for k, v in e.args.items()})
 
 
-def canonical_calls(e: Entry) -> List[dict]:
-    """Deterministic representative calls of an entry (independent of VERIF_SEED): variants 0 and 1 have the same shape
-    and different values, variant 2 another shape (other length / mutated vector) where the entry has one."""
+def canonical_calls(e: Entry, cap: int = 99) -> List[dict]:
+    """Deterministic representative calls of an entry (independent of VERIF_SEED): the directed argument sets of the entry,
+    then generated variants (at most ``cap``): variants 0 and 1 have the same shape and different values, variant 2 another
+    shape (other length / mutated vector) where the entry has one."""
     import random
 
     out, seen = [], set()
-    for k in range(e.ncanon):
+    for a in e.canon:
+        key = json.dumps(a, sort_keys=True)
+        if key not in seen:
+            seen.add(key)
+            out.append({"e": e.id, "a": a})
+    for k in range(min(e.ncanon, cap)):
         rng = random.Random(f"C19/{e.id}/{k}")
         a = {n: s.canon(rng, k) for n, s in e.args.items()}
         key = json.dumps(a, sort_keys=True)
